@@ -279,6 +279,7 @@ fn one_case(ctx: &mut Ctx, prop: &str, s: &[usize], u: usize, b: Builder, thorou
     }
     backend!("EfSeqDict", |e: EliasFano| e.map_high_bits(|h| SelectZeroAdaptConst::<_, _, 12, 3>::new(SelectAdaptConst::<_, _, 12, 3>::new(h))), seq: chk_seq, dict: chk_dict);
     backend!("EfSeq", |e: EliasFano| e.map_high_bits(SelectAdaptConst::<_, _, 12, 3>::new), seq: chk_seq, dict: no_dict);
+    backend!("EfSeqDict+map_low_bits(Box->Vec->Box)", |e: EliasFano| e.map_low_bits(|l| -> BitFieldVec<usize, Box<[usize]>> { let v: BitFieldVec<usize, Vec<usize>> = l.into(); v.into() }).map_high_bits(|h| SelectZeroAdaptConst::<_, _, 12, 3>::new(SelectAdaptConst::<_, _, 12, 3>::new(h))), seq: chk_seq, dict: chk_dict);
     backend!("EfDict", |e: EliasFano| e.map_high_bits(SelectZeroAdaptConst::<_, _, 12, 3>::new), seq: no_seq, dict: chk_index_only);
     backend!("SelectZeroAdapt(SelectAdapt)", |e: EliasFano| e.map_high_bits(|h| SelectZeroAdapt::new(SelectAdapt::new(h, 3), 3)), seq: chk_seq, dict: chk_dict);
     backend!("SelectZeroAdaptConst<2,1>(SelectAdaptConst<2,1>)", |e: EliasFano| e.map_high_bits(|h| SelectZeroAdaptConst::<_, _, 2, 1>::new(SelectAdaptConst::<_, _, 2, 1>::new(h))), seq: chk_seq, dict: chk_dict);
